@@ -6,8 +6,8 @@ From Coq Require Import List ZArith NArith Bool Arith.
 Import ListNotations.
 From RV Require Import Lib.Str Model.DataFile Proofs.DataFileP.
 
-(** Every line that is not a measurement (comments, metadata block lines, records, the header, an
-    incomplete last line) is kept, in order. *)
+(** Every line that is not a measurement (comments, metadata block lines, records, the header, a
+    line that cannot be read, an incomplete last line) is kept, in order. *)
 Theorem C14_other_lines_kept :
   forall sel f, filter is_meta (rewrite sel f) = filter is_meta f.
 Proof. intros. apply rewrite_keeps_meta. Qed.
@@ -24,8 +24,8 @@ Print Assumptions C14_exactly_selected_removed.
 
 (** Selecting nothing changes nothing. *)
 Theorem C14_nothing_selected :
-  forall f, ~ In LGarbage f -> rewrite (fun _ => false) f = f.
-Proof. intros. apply rewrite_nothing_selected. assumption. Qed.
+  forall f, rewrite (fun _ => false) f = f.
+Proof. intros. apply rewrite_nothing_selected. Qed.
 Print Assumptions C14_nothing_selected.
 
 (** The rewrite as file-system steps (create the copy next to the file, write, close, rename):
